@@ -59,21 +59,33 @@ func c06IsSel(e ast.Expr, recv, field string) bool {
 	return ok && id.Name == recv
 }
 
-// ---- a small interpreter for the body of isDryRun ----
+// ---- a small interpreter for the bodies of isDryRun and validateDryRunOptionFlag ----
 
 type c06Val struct {
-	isBool bool
-	b      bool
-	s      string
+	kind byte // 'b' bool, 's' string, 'l' []string, 'e' error (b: non-nil)
+	b    bool
+	s    string
+	l    []string
 }
 
+func c06Bool(b bool) c06Val { return c06Val{kind: 'b', b: b} }
+
 type c06Eval struct {
-	recv   string
-	dryRun bool
-	opt    string
-	env    map[string]c06Val
-	err    error
+	recv    string
+	dryRun  bool
+	opt     string
+	env     map[string]c06Val
+	err     error
+	calls   bool // string functions of package strings / slices may be called (validator)
+	inexact bool // ... and one that does more than compare for equality was used
 }
+
+const (
+	c06Next = iota
+	c06Return
+	c06Break
+	c06Continue
+)
 
 func (ev *c06Eval) fail(format string, a ...interface{}) {
 	if ev.err == nil {
@@ -101,107 +113,174 @@ func (ev *c06Eval) expr(e ast.Expr) c06Val {
 		return ev.expr(v.X)
 	case *ast.BasicLit:
 		if s, ok := strLit(v); ok {
-			return c06Val{s: s}
+			return c06Val{kind: 's', s: s}
 		}
 	case *ast.Ident:
 		switch v.Name {
 		case "true":
-			return c06Val{isBool: true, b: true}
+			return c06Bool(true)
 		case "false":
-			return c06Val{isBool: true, b: false}
+			return c06Bool(false)
+		case "nil":
+			return c06Val{kind: 'e'}
 		}
 		if x, ok := ev.env[v.Name]; ok {
 			return x
 		}
 	case *ast.SelectorExpr:
-		if c06IsSel(v, ev.recv, "DryRun") {
-			return c06Val{isBool: true, b: ev.dryRun}
+		if ev.recv != "" && c06IsSel(v, ev.recv, "DryRun") {
+			return c06Bool(ev.dryRun)
 		}
-		if c06IsSel(v, ev.recv, "DryRunOption") {
-			return c06Val{s: ev.opt}
+		if ev.recv != "" && c06IsSel(v, ev.recv, "DryRunOption") {
+			return c06Val{kind: 's', s: ev.opt}
+		}
+	case *ast.CompositeLit:
+		if at, ok := v.Type.(*ast.ArrayType); ok && flowTypeName(at.Elt) == "string" {
+			out := c06Val{kind: 'l'}
+			for _, el := range v.Elts {
+				x := ev.expr(el)
+				if x.kind != 's' {
+					ev.fail("a non-literal element in a []string literal")
+				}
+				out.l = append(out.l, x.s)
+			}
+			return out
+		}
+	case *ast.CallExpr:
+		name := flowCallName(v.Fun)
+		if !ev.calls {
+			break
+		}
+		var args []c06Val
+		for _, a := range v.Args {
+			args = append(args, ev.expr(a))
+		}
+		if ev.err != nil {
+			return c06Bool(false)
+		}
+		str := func(i int) (string, bool) {
+			if i < len(args) && args[i].kind == 's' {
+				return args[i].s, true
+			}
+			return "", false
+		}
+		switch name {
+		case "errors.New", "errors.Errorf", "fmt.Errorf", "errors.Wrap", "errors.Wrapf":
+			return c06Val{kind: 'e', b: true}
+		case "strings.EqualFold":
+			a, ok1 := str(0)
+			b, ok2 := str(1)
+			if ok1 && ok2 {
+				ev.inexact = true
+				return c06Bool(strings.EqualFold(a, b))
+			}
+		case "strings.ToLower", "strings.ToUpper", "strings.TrimSpace":
+			if a, ok := str(0); ok {
+				ev.inexact = true
+				switch name {
+				case "strings.ToLower":
+					a = strings.ToLower(a)
+				case "strings.ToUpper":
+					a = strings.ToUpper(a)
+				default:
+					a = strings.TrimSpace(a)
+				}
+				return c06Val{kind: 's', s: a}
+			}
+		case "slices.Contains":
+			if len(args) == 2 && args[0].kind == 'l' && args[1].kind == 's' {
+				for _, x := range args[0].l {
+					if x == args[1].s {
+						return c06Bool(true)
+					}
+				}
+				return c06Bool(false)
+			}
 		}
 	case *ast.UnaryExpr:
 		if v.Op == token.NOT {
 			x := ev.expr(v.X)
-			if x.isBool {
-				return c06Val{isBool: true, b: !x.b}
+			if x.kind == 'b' {
+				return c06Bool(!x.b)
 			}
 		}
 	case *ast.BinaryExpr:
 		switch v.Op {
 		case token.LOR, token.LAND:
 			x := ev.expr(v.X)
-			if !x.isBool {
+			if x.kind != 'b' {
 				break
 			}
-			// short-circuit, as Go does (the operands have no effects here, but an operand the
-			// interpreter does not understand must not matter when Go would not evaluate it)
+			// short-circuit, as Go does
 			if (v.Op == token.LOR && x.b) || (v.Op == token.LAND && !x.b) {
 				return x
 			}
 			y := ev.expr(v.Y)
-			if y.isBool {
+			if y.kind == 'b' {
 				return y
 			}
 		case token.EQL, token.NEQ:
 			x, y := ev.expr(v.X), ev.expr(v.Y)
 			if ev.err != nil {
-				return c06Val{isBool: true}
+				return c06Bool(false)
 			}
-			if x.isBool != y.isBool {
+			if x.kind != y.kind || x.kind == 'l' {
 				break
 			}
 			eq := x.b == y.b
-			if !x.isBool {
+			if x.kind == 's' {
 				eq = x.s == y.s
 			}
-			return c06Val{isBool: true, b: eq == (v.Op == token.EQL)}
+			return c06Bool(eq == (v.Op == token.EQL))
 		}
 	}
-	ev.fail("%s is not something the translator can evaluate (only DryRun, DryRunOption, string literals, locals, ==, !=, !, &&, ||)", c06Show(e))
-	return c06Val{isBool: true}
+	ev.fail("%s is not something the translator can evaluate", c06Show(e))
+	return c06Bool(false)
 }
 
-// block returns (returned?, value)
-func (ev *c06Eval) block(l []ast.Stmt) (bool, bool) {
+// block returns how control leaves it and, for a return, the value
+func (ev *c06Eval) block(l []ast.Stmt) (int, c06Val) {
 	for _, st := range l {
-		if done, v := ev.stmt(st); done || ev.err != nil {
-			return done, v
+		if ctl, v := ev.stmt(st); ctl != c06Next || ev.err != nil {
+			return ctl, v
 		}
 	}
-	return false, false
+	return c06Next, c06Val{}
 }
 
-func (ev *c06Eval) stmt(st ast.Stmt) (bool, bool) {
+func (ev *c06Eval) stmt(st ast.Stmt) (int, c06Val) {
 	switch v := st.(type) {
 	case *ast.EmptyStmt:
-		return false, false
+		return c06Next, c06Val{}
 	case *ast.ReturnStmt:
 		if len(v.Results) != 1 {
 			ev.fail("a return with %d results", len(v.Results))
-			return true, false
+			return c06Return, c06Val{}
 		}
-		x := ev.expr(v.Results[0])
-		if !x.isBool {
-			ev.fail("a return of a non-boolean")
+		return c06Return, ev.expr(v.Results[0])
+	case *ast.BranchStmt:
+		if v.Label == nil && v.Tok == token.BREAK {
+			return c06Break, c06Val{}
 		}
-		return true, x.b
+		if v.Label == nil && v.Tok == token.CONTINUE {
+			return c06Continue, c06Val{}
+		}
 	case *ast.BlockStmt:
 		return ev.block(v.List)
 	case *ast.AssignStmt:
 		if len(v.Lhs) != len(v.Rhs) {
 			ev.fail("an assignment with %d left and %d right sides", len(v.Lhs), len(v.Rhs))
-			return false, false
+			return c06Next, c06Val{}
 		}
 		for i := range v.Lhs {
 			id, ok := v.Lhs[i].(*ast.Ident)
 			if !ok {
 				ev.fail("an assignment to %s", c06Show(v.Lhs[i]))
-				return false, false
+				return c06Next, c06Val{}
 			}
 			ev.env[id.Name] = ev.expr(v.Rhs[i])
 		}
-		return false, false
+		return c06Next, c06Val{}
 	case *ast.DeclStmt:
 		gd, ok := v.Decl.(*ast.GenDecl)
 		if !ok || gd.Tok != token.VAR {
@@ -214,24 +293,28 @@ func (ev *c06Eval) stmt(st ast.Stmt) (bool, bool) {
 				case i < len(vs.Values):
 					ev.env[n.Name] = ev.expr(vs.Values[i])
 				case flowTypeName(vs.Type) == "bool":
-					ev.env[n.Name] = c06Val{isBool: true}
+					ev.env[n.Name] = c06Bool(false)
 				case flowTypeName(vs.Type) == "string":
-					ev.env[n.Name] = c06Val{}
+					ev.env[n.Name] = c06Val{kind: 's'}
 				default:
 					ev.fail("a variable of type %s", flowTypeName(vs.Type))
 				}
 			}
 		}
-		return false, false
+		return c06Next, c06Val{}
 	case *ast.IfStmt:
 		if v.Init != nil {
-			if done, x := ev.stmt(v.Init); done || ev.err != nil {
-				return done, x
+			if ctl, x := ev.stmt(v.Init); ctl != c06Next || ev.err != nil {
+				return ctl, x
 			}
 		}
 		c := ev.expr(v.Cond)
 		if ev.err != nil {
-			return false, false
+			return c06Next, c06Val{}
+		}
+		if c.kind != 'b' {
+			ev.fail("a condition that is not a boolean")
+			return c06Next, c06Val{}
 		}
 		if c.b {
 			return ev.block(v.Body.List)
@@ -239,14 +322,37 @@ func (ev *c06Eval) stmt(st ast.Stmt) (bool, bool) {
 		if v.Else != nil {
 			return ev.stmt(v.Else)
 		}
-		return false, false
-	case *ast.SwitchStmt:
-		if v.Init != nil {
-			if done, x := ev.stmt(v.Init); done || ev.err != nil {
-				return done, x
+		return c06Next, c06Val{}
+	case *ast.RangeStmt:
+		xs := ev.expr(v.X)
+		if xs.kind != 'l' {
+			ev.fail("a loop over something that is not a list of string literals")
+			return c06Next, c06Val{}
+		}
+		name := ""
+		if id, ok := v.Value.(*ast.Ident); ok {
+			name = id.Name
+		}
+		for _, x := range xs.l {
+			if name != "" && name != "_" {
+				ev.env[name] = c06Val{kind: 's', s: x}
+			}
+			ctl, val := ev.block(v.Body.List)
+			if ev.err != nil || ctl == c06Return {
+				return ctl, val
+			}
+			if ctl == c06Break {
+				break
 			}
 		}
-		tag := c06Val{isBool: true, b: true}
+		return c06Next, c06Val{}
+	case *ast.SwitchStmt:
+		if v.Init != nil {
+			if ctl, x := ev.stmt(v.Init); ctl != c06Next || ev.err != nil {
+				return ctl, x
+			}
+		}
+		tag := c06Bool(true)
 		if v.Tag != nil {
 			tag = ev.expr(v.Tag)
 		}
@@ -260,9 +366,9 @@ func (ev *c06Eval) stmt(st ast.Stmt) (bool, bool) {
 			for _, ce := range cc.List {
 				x := ev.expr(ce)
 				if ev.err != nil {
-					return false, false
+					return c06Next, c06Val{}
 				}
-				if x.isBool == tag.isBool && ((x.isBool && x.b == tag.b) || (!x.isBool && x.s == tag.s)) {
+				if x.kind == tag.kind && ((x.kind == 'b' && x.b == tag.b) || (x.kind == 's' && x.s == tag.s)) {
 					return ev.clause(cc)
 				}
 			}
@@ -270,32 +376,31 @@ func (ev *c06Eval) stmt(st ast.Stmt) (bool, bool) {
 		if deflt != nil {
 			return ev.clause(deflt)
 		}
-		return false, false
+		return c06Next, c06Val{}
 	}
 	ev.fail("a %s statement", strings.TrimPrefix(fmt.Sprintf("%T", st), "*ast."))
-	return false, false
+	return c06Next, c06Val{}
 }
 
-func (ev *c06Eval) clause(cc *ast.CaseClause) (bool, bool) {
-	for _, st := range cc.Body {
-		if b, ok := st.(*ast.BranchStmt); ok {
-			if b.Tok == token.BREAK && b.Label == nil {
-				return false, false
-			}
-			ev.fail("a %s in a switch", b.Tok)
-			return false, false
-		}
-		if done, v := ev.stmt(st); done || ev.err != nil {
-			return done, v
-		}
+// a break leaves the switch only
+func (ev *c06Eval) clause(cc *ast.CaseClause) (int, c06Val) {
+	ctl, v := ev.block(cc.Body)
+	if ctl == c06Break {
+		return c06Next, c06Val{}
 	}
-	return false, false
+	return ctl, v
 }
 
 // string literals anywhere in the body
 func c06Literals(body *ast.BlockStmt) []string {
 	seen := map[string]bool{}
 	ast.Inspect(body, func(n ast.Node) bool {
+		if ce, ok := n.(*ast.CallExpr); ok {
+			switch flowCallName(ce.Fun) {
+			case "errors.New", "errors.Errorf", "fmt.Errorf", "errors.Wrap", "errors.Wrapf":
+				return false // message texts are not option values
+			}
+		}
 		if bl, ok := n.(*ast.BasicLit); ok {
 			if s, ok := strLit(bl); ok {
 				seen[s] = true
@@ -310,6 +415,8 @@ func c06Literals(body *ast.BlockStmt) []string {
 	sort.Strings(out)
 	return out
 }
+
+const c06Fresh = "\x00not-mentioned"
 
 // c06ReadIsDryRun: (with DryRun set: true for every option, the spellings with DryRun clear, problem)
 func c06ReadIsDryRun(repo, rel, typ string) (bool, []string, string) {
@@ -328,21 +435,20 @@ func c06ReadIsDryRun(repo, rel, typ string) (bool, []string, string) {
 		}
 		where := rel + ": " + typ + ".isDryRun: "
 		lits := c06Literals(fd.Body)
-		fresh := "\x00not-mentioned"
 		run := func(dry bool, opt string) (bool, error) {
 			ev := &c06Eval{recv: rv, dryRun: dry, opt: opt, env: map[string]c06Val{}}
-			done, v := ev.block(fd.Body.List)
+			ctl, v := ev.block(fd.Body.List)
 			if ev.err != nil {
-				return false, ev.err
+				return false, fmt.Errorf("%v (only DryRun, DryRunOption, string literals, locals, ==, !=, !, &&, ||)", ev.err)
 			}
-			if !done {
-				return false, fmt.Errorf("the body can end without a return")
+			if ctl != c06Return || v.kind != 'b' {
+				return false, fmt.Errorf("the body can end without returning a boolean")
 			}
-			return v, nil
+			return v.b, nil
 		}
 		usesBool := true
 		var spell []string
-		for _, opt := range append(append([]string{}, lits...), fresh) {
+		for _, opt := range append(append([]string{}, lits...), c06Fresh) {
 			vt, err := run(true, opt)
 			if err != nil {
 				return false, nil, where + err.Error()
@@ -355,7 +461,7 @@ func c06ReadIsDryRun(repo, rel, typ string) (bool, []string, string) {
 				return false, nil, where + err.Error()
 			}
 			if vf {
-				if opt == fresh {
+				if opt == c06Fresh {
 					return false, nil, where + "it returns true for option strings it does not mention: the dry spellings are not a finite list"
 				}
 				spell = append(spell, opt)
@@ -365,6 +471,150 @@ func c06ReadIsDryRun(repo, rel, typ string) (bool, []string, string) {
 		return usesBool, spell, ""
 	}
 	return false, nil, rel + ": " + typ + ".isDryRun not found"
+}
+
+// c06ReadValidator evaluates validateDryRunOptionFlag (pkg/cmd/install.go) on every string
+// literal of its body, their upper-case / capitalised / space-padded variants, the empty string
+// and a string it does not mention: (accepted values sorted, exact?, problem).  exact = the body
+// only compares for equality (then the accepted literals ARE the accepted set); with
+// strings.EqualFold / ToLower / TrimSpace the accepted variants are witnesses of what it lets
+// through.
+func c06ReadValidator(repo string) ([]string, bool, string) {
+	rel := "pkg/cmd/install.go"
+	f, _, err := parseFile(repo, rel)
+	if err != nil {
+		return nil, false, fmt.Sprintf("%s: %v", rel, err)
+	}
+	for _, d := range f.Decls {
+		fd, ok := d.(*ast.FuncDecl)
+		if !ok || fd.Name.Name != "validateDryRunOptionFlag" || fd.Body == nil {
+			continue
+		}
+		where := rel + ": validateDryRunOptionFlag: "
+		if fd.Recv != nil || len(fd.Type.Params.List) != 1 || len(fd.Type.Params.List[0].Names) != 1 {
+			return nil, false, where + "it no longer takes the one option value"
+		}
+		param := fd.Type.Params.List[0].Names[0].Name
+		cand := map[string]bool{"": true, c06Fresh: true}
+		for _, l := range c06Literals(fd.Body) {
+			cand[l] = true
+			cand[strings.ToUpper(l)] = true
+			if l != "" {
+				cand[strings.ToUpper(l[:1])+l[1:]] = true
+			}
+			cand[" "+l] = true
+			cand[l+" "] = true
+		}
+		var all []string
+		for c := range cand {
+			all = append(all, c)
+		}
+		sort.Strings(all)
+		exact := true
+		var accepted []string
+		for _, in := range all {
+			ev := &c06Eval{env: map[string]c06Val{param: {kind: 's', s: in}}, calls: true}
+			ctl, v := ev.block(fd.Body.List)
+			if ev.err != nil {
+				return nil, false, where + ev.err.Error()
+			}
+			if ctl != c06Return || v.kind != 'e' {
+				return nil, false, where + "the body can end without returning an error value"
+			}
+			if ev.inexact {
+				exact = false
+			}
+			if !v.b {
+				if in == c06Fresh {
+					return nil, false, where + "it accepts values it does not mention"
+				}
+				accepted = append(accepted, in)
+			}
+		}
+		return accepted, exact, ""
+	}
+	return nil, false, rel + ": validateDryRunOptionFlag not found"
+}
+
+// the command files: what the bare --dry-run flag stands for (NoOptDefVal), what an empty value
+// becomes, and whether the validator is called before the action runs
+func c06CmdPlumbing(repo string) (bare, empty, validated []string, problems []string) {
+	for _, rel := range []string{"pkg/cmd/install.go", "pkg/cmd/upgrade.go", "pkg/cmd/template.go"} {
+		f, _, err := parseFile(repo, rel)
+		if err != nil {
+			problems = append(problems, fmt.Sprintf("%s: %v", rel, err))
+			continue
+		}
+		base := strings.TrimSuffix(rel[strings.LastIndex(rel, "/")+1:], ".go")
+		ast.Inspect(f, func(n ast.Node) bool {
+			switch v := n.(type) {
+			case *ast.AssignStmt:
+				if len(v.Lhs) != 1 || len(v.Rhs) != 1 {
+					return true
+				}
+				lit, isLit := strLit(v.Rhs[0])
+				sel, isSel := v.Lhs[0].(*ast.SelectorExpr)
+				if !isLit || !isSel {
+					return true
+				}
+				// f.Lookup("dry-run").NoOptDefVal = "client"
+				if sel.Sel.Name == "NoOptDefVal" {
+					if ce, ok := sel.X.(*ast.CallExpr); ok && len(ce.Args) == 1 {
+						if a, ok := strLit(ce.Args[0]); ok && a == "dry-run" {
+							bare = append(bare, "("+hx.CoqStr(base)+", "+hx.CoqStr(lit)+")")
+						}
+					}
+				}
+			case *ast.IfStmt:
+				// if client.DryRunOption == "" { client.DryRunOption = "lit" }
+				be, ok := v.Cond.(*ast.BinaryExpr)
+				if !ok || be.Op != token.EQL || v.Else != nil || len(v.Body.List) != 1 {
+					return true
+				}
+				l, ok1 := be.X.(*ast.SelectorExpr)
+				e, ok2 := strLit(be.Y)
+				as, ok3 := v.Body.List[0].(*ast.AssignStmt)
+				if ok1 && ok2 && ok3 && e == "" && l.Sel.Name == "DryRunOption" && len(as.Lhs) == 1 && len(as.Rhs) == 1 {
+					if tl, ok := as.Lhs[0].(*ast.SelectorExpr); ok && tl.Sel.Name == "DryRunOption" {
+						if lit, ok := strLit(as.Rhs[0]); ok {
+							empty = append(empty, "("+hx.CoqStr(base)+", "+hx.CoqStr(lit)+")")
+						}
+					}
+				}
+			}
+			return true
+		})
+		// every function that runs an Install / Upgrade action calls the validator first
+		for _, d := range f.Decls {
+			fd, ok := d.(*ast.FuncDecl)
+			if !ok || fd.Body == nil {
+				continue
+			}
+			vpos, runs, bad := token.NoPos, 0, 0
+			ast.Inspect(fd.Body, func(n ast.Node) bool {
+				ce, ok := n.(*ast.CallExpr)
+				if !ok {
+					return true
+				}
+				switch name := flowCallName(ce.Fun); {
+				case name == "validateDryRunOptionFlag":
+					if vpos == token.NoPos {
+						vpos = ce.Pos()
+					}
+				case name == "client.RunWithContext" || name == "client.Run" || name == "instClient.RunWithContext" || name == "instClient.Run":
+					runs++
+					if vpos == token.NoPos || vpos > ce.Pos() {
+						bad++
+					}
+				}
+				return true
+			})
+			if runs > 0 && (base == "install" || base == "upgrade") {
+				validated = append(validated, "("+hx.CoqStr(base+"."+fd.Name.Name)+", "+hx.CoqBool(bad == 0)+")")
+			}
+		}
+	}
+	return
 }
 
 // functions of a file in which <recv>.DryRun is read (methods of typ)
@@ -423,6 +673,22 @@ func genDryRunSpellings(repo string) (string, error) {
 	fmt.Fprintf(&b, "Definition install_dry_spellings : list string := %s.\n", hx.CoqStrList(il))
 	fmt.Fprintf(&b, "Definition upgrade_dry_uses_bool : bool := %s.\n", hx.CoqBool(ub))
 	fmt.Fprintf(&b, "Definition upgrade_dry_spellings : list string := %s.\n", hx.CoqStrList(ul))
+	acc, exact, p := c06ReadValidator(repo)
+	if p != "" {
+		problems = append(problems, p)
+	}
+	bare, empty, validated, ps := c06CmdPlumbing(repo)
+	problems = append(problems, ps...)
+	b.WriteString("(* pkg/cmd/install.go validateDryRunOptionFlag, evaluated on the literals of its body, their\n")
+	b.WriteString("   upper-case / capitalised / space-padded variants and the empty string: what it accepts;\n")
+	b.WriteString("   exact: it only compares for equality (no EqualFold / ToLower / TrimSpace) *)\n")
+	fmt.Fprintf(&b, "Definition cmd_validator_accepts : list string := %s.\n", hx.CoqStrList(acc))
+	fmt.Fprintf(&b, "Definition cmd_validator_exact : bool := %s.\n", hx.CoqBool(exact))
+	b.WriteString("(* pkg/cmd/{install,upgrade,template}.go: the value of the bare --dry-run flag (NoOptDefVal),\n")
+	b.WriteString("   what an empty value becomes, and: is the validator called before the action runs *)\n")
+	fmt.Fprintf(&b, "Definition cmd_bare_dry_run : list (string * string) := %s.\n", hx.CoqList(bare))
+	fmt.Fprintf(&b, "Definition cmd_empty_dry_run : list (string * string) := %s.\n", hx.CoqList(empty))
+	fmt.Fprintf(&b, "Definition cmd_validated_before_run : list (string * bool) := %s.\n", hx.CoqList(validated))
 	b.WriteString("(* what the translator could not evaluate (must be empty) *)\n")
 	fmt.Fprintf(&b, "Definition dry_table_problems : list string := %s.\n", hx.CoqStrList(problems))
 	b.WriteString("(* methods that read the single boolean DryRun: pkg/action/rollback.go, pkg/action/uninstall.go *)\n")
